@@ -9,6 +9,7 @@ mod common;
 mod io;
 mod shape;
 mod refsrv;
+mod nlasrv;
 mod gui;
 mod props;
 
@@ -22,6 +23,9 @@ fn main() {
     let thorough = args[2] == "thorough";
     let seed: u64 = args[3].parse().unwrap_or(0);
     let out = args[4].as_str();
+    // the client builds a TLS connector per connection; keep it from loading the system trust store each time
+    std::env::set_var("SSL_CERT_FILE", "/dev/null");
+    std::env::set_var("SSL_CERT_DIR", "/nonexistent");
     common::quiet_panics();
     let mut em = common::Emitter::new(out);
     if args.len() >= 6 {
